@@ -220,8 +220,12 @@ def combo_case(case):
         model = M.make("Kauri", min_samples_leaf=msl, min_samples_split=mss)
         err, steps = _fit_probe(model, X)
         _judge(err, steps, model, valid, v, dict(target="Kauri", param="min_samples_leaf/min_samples_split", expect="in" if valid else "out"), {"leaf": msl, "split": mss, "_probe_X": X})
-    elif kind == "data":
+    elif kind in ("data", "data_after_refusals"):
         name, tag = arg
+        if kind == "data_after_refusals":
+            # history: other objects were refused / took their fallbacks earlier in this process (with warnings as errors and silenced)
+            from mc import failures
+            failures.failing_prelude(seed)
         bad = {"nan": lambda: np.where(np.eye(N, D) > 0, np.nan, X), "inf": lambda: np.where(np.eye(N, D) > 0, np.inf, X),
                "strings": lambda: np.array([["a", "b", "c"]] * N, dtype=object),
                # text that happens to spell numbers is still non-numeric data (str / bytes arrays, nested lists of str)
@@ -234,7 +238,7 @@ def combo_case(case):
                "fewer_samples_than_clusters": lambda: X[:2], "complex": lambda: X.astype(complex) + 1j}[tag]()
         model = M.make(name) if name != "Kauri" else M.make("Kauri", min_samples_leaf=3, min_samples_split=6)
         err, steps = _fit_probe(model, bad)
-        _judge(err, steps, model, False, v, dict(target=name, param="X", value=tag, expect="out"), {"data": tag, "_probe_X": X})
+        _judge(err, steps, model, False, v, dict(target=name, param="X", value=tag, expect="out", history="after refusals" if kind != "data" else "none"), {"data": tag, "_probe_X": X})
     elif kind == "before_fit":
         name, call = arg
         model = M.make(name)
@@ -368,6 +372,7 @@ def explorers(tier, seed):
     c3 = [("kauri_leaf_split", (l, s), seed) for l in (1, 2, 3) for s in (2, 3, 4, 5, 6)]
     tags = ["nan", "inf", "strings", "numeric_text", "numeric_text_list", "numeric_bytes", "one_dim", "three_dim", "empty", "no_features", "scalar", "none", "fewer_samples_than_clusters", "complex"]
     c3 += [("data", (name, t), seed) for name in M.ESTIMATORS for t in tags]
+    c3 += [("data_after_refusals", (name, t), seed) for name in M.ESTIMATORS for t in ("nan", "inf", "numeric_text", "one_dim", "fewer_samples_than_clusters")]
     for name in M.ESTIMATORS:
         calls = ["predict", "score"] + (["predict_proba"] if name != "Kauri" else ["print_kauri_tree"]) + \
                 (["get_selection"] if name in M.SPARSE else []) + (["find_active_points"] if name == "Douglas" else [])
